@@ -392,6 +392,10 @@ def funnel_rejects_none(C, b, name):
         for p2, t2 in b.iter_calls():
             if call_matches(t2, r'Option::<.*>::ok_or$|Option::<T>::(ok_or|ok_or_else)$') and any(is_local_op(a) and a['l'] in taint for a in t2['args']):
                 okk = True
+        # the same adaptor inside an inlined helper is expanded to its dispatch (inline._expand_ok_or): the discriminant read of the Option
+        for p2, s2 in b.iter_stmts():
+            if s2.get('inl') == 'comb' and s2['k'] == 'assign' and s2['rv']['k'] == 'discr' and s2['rv']['pl']['l'] in taint:
+                okk = True
         C.check(okk, 'C03-MUST-funnel', '%s|upgrade-failure-is-Err' % name, 'a failed upgrade of the parent link is not turned into an error in %s' % name, b.where(p))
 
 
